@@ -33,8 +33,12 @@ func init() {
 			c.floor("AM", 10)
 			c.runAllChildren("ALLCHILD", c.libPkgs()[:4], ff)
 			c.floor("ALLCHILD", 3)
+			c.runAxisCompare("AXISCMP", append(c.libPkgs()[:4:4], c.fixturePkg("u")), ff)
+			c.floor("AXISCMP", 0)
 		},
 		SelfTest: []Mutation{
+			{Name: "triangle query prunes a node by comparing z with y", File: "model3d/collisions.go",
+				Old: "if min.X > max.X || min.Y > max.Y || min.Z > max.Z {\n\t\treturn nil\n\t}\n\n\tvar res []Segment", New: "if min.X > max.X || min.Y > max.Y || min.Z > max.Y {\n\t\treturn nil\n\t}\n\n\tvar res []Segment", Rule: "AXISCMP", Expect: "TriangleCollisions"},
 			{Name: "point tree compares the plane distance with the squared bound", File: "model3d/coord_tree.go",
 				Old: "planeDist*planeDist < ", New: "planeDist < ", All: true, Rule: "UNIT", Expect: "CoordTree"},
 			{Name: "mesh collider drops the middle triangle", File: "model3d/collisions.go",
